@@ -24,6 +24,36 @@ variable {α : Type} [Scalar α]
 /-- `#{ j : j·num < den }` = `⌈den/num⌉` : the number of multiples of `num/den` in `[0,1)` -/
 def count (num den : Nat) : Nat := (den + num - 1) / num
 
+/-! ## length of `arange(0, 1, interval)` as the float code computes it
+
+`torch.arange(0, 1, step)` has `ceil((1 - 0) / step)` entries where the division is an IEEE binary64 division
+(round to nearest, ties to even) of the doubles `1.0` and `step = num/den` (`den` a power of two).  `rn53` is that
+division on exact rationals: the quotient `den/num` is scaled by `2^s` into `[2^52, 2^53)`, rounded to an integer
+`m` (ties to even) and the result is `m / 2^s`.  Valid for `den/num < 2^53` (intervals above `2^-53`). -/
+
+/-- least shift `s ≥ s₀` (fuel-bounded) with `⌊den·2^s / num⌋ ≥ 2^52` -/
+def shiftTo53 (num den : Nat) : Nat → Nat → Nat
+  | 0, s => s
+  | fuel + 1, s => if 2 ^ 52 ≤ den * 2 ^ s / num then s else shiftTo53 num den fuel (s + 1)
+
+/-- round-to-nearest-even at shift `s`: the integer `m` with `m / 2^s ≈ den/num` -/
+def roundAt (num den s : Nat) : Nat :=
+  let D := den * 2 ^ s
+  let m0 := D / num
+  let r := D % num
+  if num < 2 * r || (2 * r == num && m0 % 2 == 1) then m0 + 1 else m0
+
+/-- `(m, s)` with `fl64(den/num) = m / 2^s` -/
+def rn53 (num den : Nat) : Nat × Nat :=
+  let s := shiftTo53 num den 1100 0
+  (roundAt num den s, s)
+
+/-- `ceil(m / 2^s)` -/
+def ceilShift (m s : Nat) : Nat := (m + 2 ^ s - 1) / 2 ^ s
+
+/-- `len(torch.arange(0, 1, num/den))` = `ceil(fl64(1.0 / (num/den)))` -/
+def floatLen (num den : Nat) : Nat := ceilShift (rn53 num den).1 (rn53 num den).2
+
 /-! ## `chspline` (one coordinate) -/
 
 /-- rows of `A @ [1, t, t², t³]ᵀ` -/
